@@ -6,7 +6,13 @@ CONSTANTS
   MaxFetches = 2
   MaxOpen = 1
   Overlap = FALSE
+  Kinds = {"direct"}
+  Ours = {"V1", "V2"}
+  LookErrs = {}
+  MaxRefresh = 0
+  AuctionMiss = "fail"
+  BidAccount = "lookup"
   Design = "memo"
-INVARIANTS TypeOK UsesInForce SequentialRight
+INVARIANTS TypeOK UsesInForce SequentialRight CallersAgree MissOnly
 CONSTRAINT FetchBound
 CHECK_DEADLOCK FALSE
